@@ -8,6 +8,10 @@ import (
 	"time"
 )
 
+// VerifSetQueueCap replaces the log queue by an empty one of the given capacity.  Call it only while no flusher is
+// running (after a completed flush, before VerifResetFlusher) and no logging call is in progress.
+func VerifSetQueueCap(n int) { logQueue = make(chan *logValue, n) }
+
 // VerifResetFlusher discards what is left in the queue, re-creates the flush contexts and starts a
 // new flusher goroutine. The flush handshake is one-shot per process otherwise. The previous
 // flusher must have exited (a flush completed) before this is called.
